@@ -9,7 +9,33 @@ NOTE = ("Trusted: Lean 4.33 kernel (axioms per theorem printed on every run, sub
         "native_decide, bv_decide or user axioms), the Lean compiler for the driver executable, rustc/std, and the correspondence "
         "harness pvh (generators, canonicalisation) which is the only tie between the hand-written model and /repo. ")
 
+FLOATTXT = ("Modelled, not verified: Rust's Display/FromStr for f64 (the theorems assume exactly the three codec laws of NW.Codec: "
+            "printed text parses back to the same value, uses only plain characters, is non-empty; the harness checks real to_newick/from_newick "
+            "text and bit patterns against the model on every run, including -0, subnormals, 1e300 and infinities); char::is_whitespace (transcribed table); "
+            "stack depth of the recursive writer on extremely deep trees. ")
+
 CLAIMS = {
+ "C01": dict(
+   text="Kernel-checked theorem, by structural induction over all trees and all codecs satisfying three laws, that parsing the written form "
+        "of any tree in the property's domain yields an arena representing exactly that tree (shape, child order, names, comments, length values), "
+        "for every arena layout (writer refinement theorem over a layout-independent abstraction), and that writing the re-parsed arena reproduces "
+        "the text. The character-level parser model and the arena writer model are tied to the crate by comparing to_newick text and complete "
+        "from_newick arenas (length bit patterns) on generated trees in four arena layouts, plus a write/parse/compare/write oracle on the real code.",
+   note=NOTE + FLOATTXT, technique="Lean 4 structural-induction proof of the round trip + differential execution of parser/writer models against the crate", ref="5 C01"),
+ "C02": dict(
+   text="Kernel-checked theorems over ALL character lists: the parser model terminates, never takes a panic branch, and every returned arena is one "
+        "rooted tree containing all slots (state invariant over the 12 arms of the step function); text without ';' is rejected; for quote-free text the "
+        "returned arena's written form parses back to an arena representing the same tree and is written identically (normal form). The model is tied "
+        "to from_newick by comparing outcome class and the complete arena on every string up to a length bound over the token alphabet (exhaustive), all "
+        "short float lexemes, mutated valid Newick and random Unicode; oracles on the real code: no unwinding, single root, reachability, normal form, rejection.",
+   note=NOTE + FLOATTXT + "The unbalanced-parentheses clause is decided by the exhaustive correspondence and the rejection oracle, not yet by a theorem.",
+   technique="Lean 4 state-invariant proofs over the parser automaton + exhaustive short-string differential execution", ref="5 C02"),
+ "C16": dict(
+   text="Kernel-checked theorems for all nine formats and all trees: the format's text is the full-format text of the tree with exactly the omitted "
+        "fields erased (strip), the arena writer produces it on every arena layout, stripping stays inside the round-trip domain, and parsing the text "
+        "yields the stripped tree (via C01). Tied to the crate by comparing to_formatted_newick for all nine formats and to_nexus with the model on "
+        "generated trees in four layouts; oracle: parse back and compare with the harness's own strip; Nexus NTAX / TAXLABELS / embedded text.",
+   note=NOTE + FLOATTXT, technique="Lean 4 structural-induction proof (format = write of stripped tree) + differential execution of all nine formats", ref="5 C16"),
  "C03": dict(
    text="Kernel-checked theorems that every arena mutator of the model (add_child, recursive prune, compress_node with the depth repair, "
         "the regrouping step of merge_children/resolve, reset_depth_impl) preserves the arena invariant for every argument and terminates, "
